@@ -1,10 +1,12 @@
 #!/bin/sh
-# usage: try_seed.sh <patch> <check id>...   applies patch to /repo, runs the checks (quick), reverts
-p=$1; shift
-cd /repo || exit 2
-git diff --quiet || { echo "repo dirty"; exit 2; }
-git apply "$p" || git apply -3 "$p" || { echo "PATCH DOES NOT APPLY"; git checkout -- . ; exit 3; }
+# usage: try_seed.sh <patch> <check id>...   applies the patch in a scratch worktree of /repo HEAD
+# (never in /repo), runs the quick checks against it (TXDBUS_REPO), removes the worktree
+p=$(realpath "$1"); shift
+wt=/tmp/ts-$$
+git -C /repo worktree add -q --detach $wt HEAD || exit 2
+(cd $wt && (git apply "$p" 2>/dev/null || git apply -3 "$p")) || { echo "PATCH DOES NOT APPLY"; git -C /repo worktree remove --force $wt; exit 3; }
 for id in "$@"; do
-  (cd /verif && ./check $id 2>&1 | grep -E "VIOLATION|^OK|KNOWN|MACHINERY|^  " | head -3)
+  (cd /verif && TXDBUS_REPO=$wt ./check $id 2>&1 | grep -E "VIOLATION|^OK|KNOWN|MACHINERY|^  " | head -4)
+  (cd /verif && git checkout -q evidence/$id.json 2>/dev/null)
 done
-git reset -q --hard HEAD ; git status --short | head -3
+git -C /repo worktree remove --force $wt
